@@ -280,3 +280,147 @@ example :
      | .error e => (.err e, false))
     = (.recs [⟨[97], [117, 47], [[65]], [[118, 47]], none⟩, ⟨[98], [122, 47], [], [[119, 47]], none⟩], true) := by
   decide
+
+
+theorem firstUpgrade_mem (canonical : Str) (synonyms : List Str) (up : List (Str × Str)) (new : Str)
+    (h : firstUpgrade canonical synonyms up = some new) : ∃ k ∈ canonical :: synonyms, (k, new) ∈ up := by
+  have get_mem : ∀ k v, Dict.get up k = some v → (k, v) ∈ up := by
+    intro k v hg
+    unfold Dict.get at hg
+    cases hf : up.find? (fun kv => kv.1 == k) with
+    | none => simp [hf] at hg
+    | some kv =>
+      rw [hf] at hg
+      simp only [Option.map_some, Option.some.injEq] at hg
+      have hm := List.mem_of_find?_eq_some hf
+      have hk : kv.1 = k := by simpa using List.find?_some hf
+      obtain ⟨a, b⟩ := kv
+      simp only at hg hk
+      subst hg; subst hk; exact hm
+  unfold firstUpgrade at h
+  cases hc : Dict.get up canonical with
+  | some v =>
+    rw [hc] at h
+    simp only [Option.some.injEq] at h
+    subst h
+    exact ⟨canonical, by simp, get_mem _ _ hc⟩
+  | none =>
+    rw [hc] at h
+    simp only at h
+    obtain ⟨s, hs, hg⟩ := List.exists_of_findSome?_eq_some h
+    exact ⟨s, by simp [hs], get_mem _ _ hg⟩
+
+/-- what the upgraded record may list on the URI side: what it listed, or the new URI prefix when
+that one was unused in the converter -/
+theorem mem_upgradeUri_allU (c : Conv) (r : Record) (new x : Str) (h : x ∈ (upgradeUri c r new).allU) :
+    x ∈ r.allU ∨ (x = new ∧ Dict.has c.revMap new = false) := by
+  have hup := C12_upgrade c r new
+  by_cases hcl : Dict.has c.revMap new = true ∧ new ∉ r.uSyn
+  · rw [hup.2.2.2.2.2.2 hcl] at h; exact Or.inl h
+  · rcases hup.2.2.2.2.1 x h with h1 | h1
+    · exact Or.inl h1
+    · by_cases hh : Dict.has c.revMap new = true
+      · have : new ∈ r.uSyn := Classical.byContradiction fun hn => hcl ⟨hh, hn⟩
+        exact Or.inl (by rw [h1]; simp [Record.allU, this])
+      · exact Or.inr ⟨h1, by simpa using hh⟩
+
+theorem same_key_of_nodup_values {up : List (Str × Str)} (hinj : (up.map (·.2)).Nodup) {k1 k2 v : Str}
+    (h1 : (k1, v) ∈ up) (h2 : (k2, v) ∈ up) : k1 = k2 := by
+  induction up with
+  | nil => cases h1
+  | cons kv rest ih =>
+    rw [List.map_cons, List.nodup_cons] at hinj
+    rcases List.mem_cons.mp h1 with e1 | m1
+    · rcases List.mem_cons.mp h2 with e2 | m2
+      · rw [← e2] at e1; exact (Prod.mk.inj e1).1
+      · exact absurd (List.mem_map.mpr ⟨(k2, v), m2, by rw [← e1]⟩) hinj.1
+    · rcases List.mem_cons.mp h2 with e2 | m2
+      · exact absurd (List.mem_map.mpr ⟨(k1, v), m1, by rw [← e2]⟩) hinj.1
+      · exact ih hinj.2 m1 m2
+
+/-- the generic argument: a per-record map that leaves the CURIE side alone and adds to the URI side
+at most a value selected through a key of the record, unused in the converter, keeps a one-owner
+collection one-owner when the selection is injective -/
+theorem unique_map_upgrade {c : Conv} (h : WF c) (up : List (Str × Str)) (hinj : (up.map (·.2)).Nodup)
+    (keys : Record → List Str) (f : Record → Record)
+    (hkeys : ∀ a b : Record, (Disj a.allP b.allP ∧ Disj a.allU b.allU) → Disj (keys a) (keys b))
+    (hP : ∀ r, (f r).allP = r.allP)
+    (hU : ∀ r x, x ∈ (f r).allU → x ∈ r.allU ∨ (∃ k ∈ keys r, (k, x) ∈ up ∧ Dict.has c.revMap x = false)) :
+    Unique (c.records.map f) := by
+  unfold Unique
+  rw [List.pairwise_map]
+  refine h.unique.imp_of_mem ?_
+  intro a b ha hb hab
+  refine ⟨by rw [hP, hP]; exact hab.1, ?_⟩
+  intro x hxa hxb
+  have unused_not_listed : ∀ r ∈ c.records, Dict.has c.revMap x = false → x ∉ r.allU := by
+    intro r hr hun hx
+    have := (has_revMap_iff h x).mpr ⟨r, hr, hx⟩
+    rw [hun] at this; cases this
+  rcases hU a x hxa with h1 | ⟨k1, hk1, hm1, hun1⟩
+  · rcases hU b x hxb with h2 | ⟨k2, hk2, hm2, hun2⟩
+    · exact hab.2 x h1 h2
+    · exact unused_not_listed a ha hun2 h1
+  · rcases hU b x hxb with h2 | ⟨k2, hk2, hm2, hun2⟩
+    · exact unused_not_listed b hb hun1 h2
+    · have := same_key_of_nodup_values hinj hm1 hm2
+      subst this
+      exact hkeys a b hab k1 hk1 hk2
+
+/-- **C12 (injective rewirings are never rejected).** For every well-formed converter and every
+rewiring whose values are pairwise different, `rewire` returns a converter. -/
+theorem C12_rewire_ok {c : Conv} (h : WF c) (rw : List (Str × Str)) (hinj : (rw.map (·.2)).Nodup) :
+    ∃ c', rewire c rw = .ok c' := by
+  rw [rewire_eq]
+  apply (init?_ok_iff _ _).mpr
+  apply unique_map_upgrade h rw hinj Record.allP (rewireRec c rw) (fun a b hab => hab.1)
+  · intro r
+    have := rewireRec_fields c rw r
+    simp [Record.allP, this.1, this.2.1]
+  · intro r x hx
+    unfold rewireRec at hx
+    cases hf : firstUpgrade r.pfx r.pSyn rw with
+    | none => rw [hf] at hx; exact Or.inl hx
+    | some new =>
+      rw [hf] at hx
+      simp only at hx
+      split at hx
+      · exact Or.inl hx
+      · rcases mem_upgradeUri_allU c r new x hx with h1 | ⟨h1, h2⟩
+        · exact Or.inl h1
+        · obtain ⟨k, hk, hm⟩ := firstUpgrade_mem _ _ _ _ hf
+          exact Or.inr ⟨k, hk, by rw [h1]; exact hm, by rw [h1]; exact h2⟩
+
+/-- **C12 (injective URI-prefix remappings are rejected only as transitive).** -/
+theorem C12_remap_ok {c : Conv} (h : WF c) (rm : List (Str × Str)) (hinj : (rm.map (·.2)).Nodup)
+    (hnt : ¬ ∃ k, k ∈ rm.map (·.1) ∧ k ∈ rm.map (·.2)) :
+    ∃ c', remapUriPrefixes c rm = .ok c' := by
+  unfold remapUriPrefixes
+  have hno : ((rm.map (·.1)).any fun k => (rm.map (·.2)).contains k) = false := by
+    rw [List.any_eq_false]
+    intro k hk hc
+    exact hnt ⟨k, hk, by simpa using hc⟩
+  rw [hno]
+  simp only [Bool.false_eq_true, if_false]
+  apply (init?_ok_iff _ _).mpr
+  apply unique_map_upgrade h rm hinj Record.allU
+    (fun record => match firstUpgrade record.uri record.uSyn rm with
+      | none => record
+      | some new => upgradeUri c record new) (fun a b hab => hab.2)
+  · intro r
+    cases hf : firstUpgrade r.uri r.uSyn rm with
+    | none => rfl
+    | some new =>
+      have := C12_upgrade c r new
+      simp only
+      simp [Record.allP, this.1, this.2.1]
+  · intro r x hx
+    cases hf : firstUpgrade r.uri r.uSyn rm with
+    | none => rw [hf] at hx; exact Or.inl hx
+    | some new =>
+      rw [hf] at hx
+      simp only at hx
+      rcases mem_upgradeUri_allU c r new x hx with h1 | ⟨h1, h2⟩
+      · exact Or.inl h1
+      · obtain ⟨k, hk, hm⟩ := firstUpgrade_mem _ _ _ _ hf
+        exact Or.inr ⟨k, hk, by rw [h1]; exact hm, by rw [h1]; exact h2⟩
